@@ -26,8 +26,12 @@ func init() {
 
 const serverRel = "proxy/server"
 
-func (c *Ctx) seMethod(name string) *ssa.Function { return c.Method(serverRel, "SessionExecutor", name) }
-func (c *Ctx) pcMethod(name string) *types.Func    { return c.IfaceMethod("backend", "PooledConnect", name) }
+func (c *Ctx) seMethod(name string) *ssa.Function {
+	return c.Method(serverRel, "SessionExecutor", name)
+}
+func (c *Ctx) pcMethod(name string) *types.Func {
+	return c.IfaceMethod("backend", "PooledConnect", name)
+}
 
 // ---------------------------------------------------------------------------------------
 // C35
@@ -277,9 +281,31 @@ func miniEval(fn *ssa.Function, params map[*ssa.Parameter]constant.Value, hook e
 					}
 				}
 			case *ssa.Call:
+				done := false
 				if hook != nil {
 					if v, ok := hook(x); ok {
 						env[x] = v
+						done = true
+					}
+				}
+				// a predicate extracted into a helper: fold the helper for the constant arguments
+				if !done {
+					if h := x.Call.StaticCallee(); h != nil && len(h.Blocks) > 0 && h != fn && h.Signature.Results().Len() == 1 && len(x.Call.Args) == len(h.Params) {
+						sub := map[*ssa.Parameter]constant.Value{}
+						all := true
+						for k, a := range x.Call.Args {
+							v, ok := get(a)
+							if !ok {
+								all = false
+								break
+							}
+							sub[h.Params[k]] = v
+						}
+						if all {
+							if v, why := miniEval(h, sub, hook); why == "" {
+								env[x] = v
+							}
+						}
 					}
 				}
 			case *ssa.If:
@@ -682,10 +708,10 @@ func ruleC22b(c *Ctx, r *Report) {
 		return
 	}
 	allowed := map[*ssa.Function]string{
-		doQuery:                          "behind checkExecuteFromSlave",
-		c.seMethod("handleShow"):         "SHOW statements only (reached for StmtShow)",
-		c.seMethod("handleFieldList"):    "COM_FIELD_LIST is a read",
-		c.seMethod("getBackendKsConn"):   "keep-session: read-only users are pinned to a replica connection by design",
+		doQuery:                        "behind checkExecuteFromSlave",
+		c.seMethod("handleShow"):       "SHOW statements only (reached for StmtShow)",
+		c.seMethod("handleFieldList"):  "COM_FIELD_LIST is a read",
+		c.seMethod("getBackendKsConn"): "keep-session: read-only users are pinned to a replica connection by design",
 	}
 	for _, s := range c.callSites(func(cc *ssa.CallCommon) bool { return callsFunc(cc, setFS) }) {
 		cc := callCommon(s.In)
@@ -1016,6 +1042,15 @@ func ruleC20(c *Ctx, r *Report) {
 					dom = true
 				}
 			}
+			// or after a package-private helper that returns nil only after SyncSessionVariables()==nil on its parameter
+			for h, pi := range syncHelpers(c, sync, inServer) {
+				for _, ci := range callsIn(gtc, func(x *ssa.CallCommon) bool { return callsFunc(x, h) }) {
+					call, ok := ci.(*ssa.Call)
+					if ok && pi < len(call.Call.Args) && sameVal(call.Call.Args[pi], mu.Value) && dominatedByNilErr(mu, call) {
+						dom = true
+					}
+				}
+			}
 			if dom {
 				r.ok("MP-C20a", c.FuncName(gtc), "store:txConns", c.Pos(mu.Pos()), "transaction connection is stored only after SyncSessionVariables()==nil on it")
 			} else {
@@ -1055,7 +1090,56 @@ func ruleC20(c *Ctx, r *Report) {
 				return x != nil && callsIfaceMethod(x, closeM) && sameVal(recvOf(x), pc)
 			}})...)
 		}
-		if ne == 0 {
+		// a package-private helper that hands the SET's error back unchanged delegates the failure edge: every
+		// caller must then close the connection it passed on the helper's non-nil edge
+		delegated := false
+		if pi, ok := delegatesSetError(s.Fn, call, pc, bad, ne); ok {
+			delegated = true
+			callers := c.callSites(func(x *ssa.CallCommon) bool { return callsFunc(x, s.Fn) })
+			good := len(callers) > 0
+			for _, cs := range callers {
+				hc, isCall := cs.In.(*ssa.Call)
+				cname := c.FuncName(cs.Fn)
+				ccons := cons + ":via:" + s.Fn.Name()
+				if !isCall || pi >= len(hc.Call.Args) {
+					r.viol("MP-C20b", cname, ccons, c.Pos(cs.In.Pos()), "helper that returns the SET's error is called with go/defer: nobody sees the failure")
+					good = false
+					continue
+				}
+				arg := hc.Call.Args[pi]
+				var cbad []Exit
+				cne := 0
+				for _, e := range errNilEdgesOfCall(hc) {
+					if e.Val {
+						continue
+					}
+					cne++
+					cbad = append(cbad, searchExits(cs.Fn, nil, e.If.Block().Succs[e.Succ], SearchOpts{Stop: func(in ssa.Instruction) bool {
+						x := callCommon(in)
+						return x != nil && callsIfaceMethod(x, closeM) && sameVal(recvOf(x), arg)
+					}})...)
+				}
+				switch {
+				case cne == 0:
+					r.viol("MP-C20b", cname, ccons, c.Pos(hc.Pos()), "the SET statement's error (returned by "+s.Fn.Name()+") is not branched on here")
+					good = false
+				case len(cbad) > 0:
+					r.viol("MP-C20b", cname, ccons, c.Pos(hc.Pos()), "after a failed SET inside "+s.Fn.Name()+" the connection stays open: the pool keeps a connection whose belief differs from the backend's state", c.pathStrings(cbad[0])...)
+					good = false
+				default:
+					r.ok("MP-C20b", cname, ccons, c.Pos(hc.Pos()), "on the helper's failure edge the connection is closed before the function returns")
+				}
+			}
+			if good {
+				r.ok("MP-C20b", name, cons, c.Pos(call.Pos()), fmt.Sprintf("the SET's error is returned unchanged to %d caller(s), each of which closes the connection on it", len(callers)))
+			} else {
+				r.viol("MP-C20b", name, cons, c.Pos(call.Pos()), "the SET's error is handed to callers that do not all close the connection on it")
+			}
+			if ne == 0 {
+				continue
+			}
+			bad = nil
+		} else if ne == 0 {
 			// error returned directly (return pc.SyncSessionVariables(...)): the caller owns the edge
 			r.viol("MP-C20b", name, cons, c.Pos(call.Pos()), "the SET statement's error is not branched on here")
 			continue
@@ -1083,6 +1167,9 @@ func ruleC20(c *Ctx, r *Report) {
 			} else {
 				r.ok("MP-C20b", name, cons+":no-belief-update", c.Pos(call.Pos()), "the failure edge does not move the connection's cached settings")
 			}
+		}
+		if delegated {
+			continue
 		}
 		if len(bad) == 0 {
 			r.ok("MP-C20b", name, cons, c.Pos(call.Pos()), "on failure the connection is closed before the function returns: no wrong belief reaches the pool")
@@ -1346,4 +1433,100 @@ func ruleC17split(c *Ctx, r *Report) {
 	if nret == 0 {
 		r.undecided(rule, name, "pieces:from-token-stream", c.Pos(fn.Pos()), "no return with pieces found")
 	}
+}
+
+// syncHelpers returns the package-private functions of proxy/server that take a PooledConnect parameter and return a
+// nil error only on paths dominated by SyncSessionVariables()==nil on that parameter, with the parameter's index.
+func syncHelpers(c *Ctx, sync *types.Func, inServer func(*ssa.Function) bool) map[*ssa.Function]int {
+	out := map[*ssa.Function]int{}
+	for _, s := range c.callSites(func(cc *ssa.CallCommon) bool { return callsIfaceMethod(cc, sync) }) {
+		call, ok := s.In.(*ssa.Call)
+		if !ok || !inServer(s.Fn) || s.Fn.Parent() != nil || s.Fn.Object() == nil || s.Fn.Object().Exported() {
+			continue
+		}
+		p, ok := stripValue(recvOf(&call.Call)).(*ssa.Parameter)
+		if !ok || errResultIndex(s.Fn.Signature) < 0 {
+			continue
+		}
+		pi := -1
+		for i, q := range s.Fn.Params {
+			if q == p {
+				pi = i
+			}
+		}
+		good := pi >= 0
+		allInstrs(s.Fn, func(in ssa.Instruction) {
+			ret, ok := in.(*ssa.Return)
+			if !ok {
+				return
+			}
+			if isNil, known := returnsNilError(ret); known && !isNil {
+				return
+			}
+			if !dominatedByNilErr(ret, call) {
+				good = false
+			}
+		})
+		if good {
+			out[s.Fn] = pi
+		}
+	}
+	return out
+}
+
+// delegatesSetError reports whether fn (package-private, pc is its parameter) hands the error of the SET call back to
+// its callers unchanged on every failure exit that leaves the connection open (bad), or directly when it does not branch on it (ne==0).
+func delegatesSetError(fn *ssa.Function, call *ssa.Call, pc ssa.Value, bad []Exit, ne int) (int, bool) {
+	if fn.Parent() != nil || fn.Object() == nil || fn.Object().Exported() {
+		return 0, false
+	}
+	p, ok := stripValue(pc).(*ssa.Parameter)
+	if !ok {
+		return 0, false
+	}
+	pi := -1
+	for i, q := range fn.Params {
+		if q == p {
+			pi = i
+		}
+	}
+	idx := errResultIndex(fn.Signature)
+	ev := errResultOf(call)
+	if pi < 0 || idx < 0 || ev == nil {
+		return 0, false
+	}
+	isSetErr := func(ret *ssa.Return) bool {
+		vals, zero := retValues(ret, idx)
+		if zero || len(vals) == 0 {
+			return false
+		}
+		for _, v := range vals {
+			for _, l := range phiLeaves(v) {
+				if !sameVal(l, ev) {
+					return false
+				}
+			}
+		}
+		return true
+	}
+	if ne == 0 {
+		// return pc.SyncSessionVariables(...): the error value flows straight into a return
+		n := 0
+		allInstrs(fn, func(in ssa.Instruction) {
+			if ret, ok := in.(*ssa.Return); ok && isSetErr(ret) {
+				n++
+			}
+		})
+		return pi, n > 0
+	}
+	if len(bad) == 0 {
+		return 0, false
+	}
+	for _, e := range bad {
+		ret, ok := e.Instr.(*ssa.Return)
+		if !ok || !isSetErr(ret) {
+			return 0, false
+		}
+	}
+	return pi, true
 }
